@@ -259,9 +259,20 @@ def writer_cases(draw):
   if draw(st.booleans()):
     pos = draw(st.integers(1, len(recv)))
     recv = recv[:pos] + [['stop']]
+  shutdown_rate = draw(st.sampled_from([None, 3, 1000]))
+  if draw(st.integers(0, 3)) == 0:
+    # a backlog of never-seen metrics waiting for their files when the stop arrives (creates limited to 1-2 a minute,
+    # a small shutdown rate): what the changed limits grant afterwards is judged against the new burst
+    metrics = ['n%d' % i for i in range(draw(st.integers(10, 24)))]
+    recv = [['store', m, 1, i + 1] for i, m in enumerate(metrics)]
+    if draw(st.booleans()):
+      recv.insert(draw(st.integers(1, len(recv))), ['wait', draw(st.sampled_from([0.05, 1, 3]))])
+    recv.append(['stop'])
+    cpm = draw(st.sampled_from([1, 2]))
+    shutdown_rate = draw(st.sampled_from([2, 3]))
   return {'layer': 'writer', 'strategy': draw(st.sampled_from(cachesim.STRATEGIES)), 'lag': 0, 'recv': recv,
           'updates_per_second': ups, 'creates_per_minute': cpm,
-          'shutdown_rate': draw(st.sampled_from([None, 3, 1000])),
+          'shutdown_rate': shutdown_rate,
           'precreated': draw(st.lists(st.sampled_from(metrics), unique=True, max_size=5)),
           'switches': draw(c02.switch_lists(max_switches=8, max_gap=80)), 'first': draw(st.integers(0, 1)),
           'end_wait': draw(st.sampled_from([2, 65]))}
